@@ -18,6 +18,7 @@ A part module (props/part_<name>.py) defines  PART = SomePart()  with:
     describe(case, obs) -> [str]
     trusted_base / assumptions / partial      dict prop_id -> list[str]   (optional)
     nontrivial_rule                           dict prop_id -> str         (optional)
+    pre_build(prop_id)                        optional: regenerate coq/Gen/*.v (translated leaf bodies) before the build
     weight                                    relative share of generated cases (default 1)
 
 The same case stream serves every property the part contributes to; the monitor is selected by prop_id.
@@ -95,6 +96,12 @@ class Composite(Prop):
 
     def _part(self, case):
         return self.parts[case["part"]]
+
+    def pre_build(self):
+        """second tie: every part regenerates its coq/Gen/*.v from the tree under test (a part that raises fails closed)"""
+        for p in self.parts.values():
+            if hasattr(p, "pre_build"):
+                p.pre_build(self.id)
 
     def gen_case(self, rng, tier):
         names = list(self.parts)
